@@ -111,7 +111,7 @@ def native_run(text, entry, inputs, timeout=30, san=True, env_extra=None):
     tmpd = tempfile.mkdtemp(prefix='fs_', dir=REPLAY)
     os.makedirs(os.path.join(tmpd, 'ro_is_not_a_dir'), exist_ok=True)
     env = dict(os.environ, VP_INPUTS=inp, VP_TMP=tmpd, ASAN_OPTIONS='detect_leaks=1:abort_on_error=0:exitcode=99',
-               UBSAN_OPTIONS='print_stacktrace=1:halt_on_error=1:exitcode=98')
+               UBSAN_OPTIONS='print_stacktrace=1:halt_on_error=1:exitcode=98', TSAN_OPTIONS='exitcode=66:halt_on_error=0')
     if env_extra:
         env.update(env_extra)
     try:
@@ -162,6 +162,16 @@ def native_confirm(task, viol):
                 return True, 'native runs under different sleep-perturbed schedules wrote different files (%s bytes)' % (
                     ' vs '.join(str(len(k)) for k in seen))
         return False, '40 native runs wrote identical files'
+    if kind == 'address_dependent':
+        # the same inputs in two native runs whose heap layouts differ: the exported bytes must be identical
+        seen = {}
+        for k in (0, 3, 11):
+            nr = native_run(task.text, task.entry, viol['inputs'], timeout=30, env_extra={'VP_HEAP_SHIFT': str(k)} if k else None)
+            key = tuple((tag, bytes(bs)) for tag, bs in nr['outs'] if tag in ('bytes1',))
+            seen.setdefault(key, k)
+            if len(seen) > 1:
+                return True, 'native runs with different heap layouts (VP_HEAP_SHIFT %s) emit different bytes for the same object' % sorted(seen.values())
+        return False, 'native runs with three heap layouts emit identical bytes'
     if kind == 'growth':
         # re-measure natively with the counting allocator: the judge callback decides
         cb = task.opts.get('native_growth')
@@ -201,6 +211,28 @@ def native_confirm(task, viol):
                 return True, 'native behaviour changes when only the stale field %s is changed to %d (rc %s -> %s)' % (
                     fld, alt, base['rc'], r2['rc'])
         return False, 'native behaviour independent of the stale field'
+    if kind == 'race':
+        # a data race: the same harness and the library sources built with ThreadSanitizer; the schedule of the
+        # counterexample first, then unperturbed and sleep-perturbed runs
+        sched = (viol.get('extra') or {}).get('schedule') or []
+        envs = []
+        if sched and len(sched[0]) >= 4 and sched[0][3] and sched[0][3][0] in ('L', 'U', 'S'):
+            skind, stid, scnt = sched[0][3]
+            for d in (0, 1, -1, 2):
+                if scnt + d >= 1:
+                    e = {'VP_PAUSE': '%d:%s:%d:%d' % (stid, skind, scnt + d, 300)}
+                    if task.opts.get('child_first'):
+                        e['VP_CHILD_FIRST'] = '100'
+                    envs.append(e)
+        envs += [None, {'VP_CHILD_FIRST': '50'}] + [{'VP_CHAOS': str(s * 7919)} for s in range(1, 7)]
+        last = ''
+        for e in envs:
+            nr = native_run(task.text, task.entry, viol['inputs'], timeout=60, san='tsan', env_extra=e)
+            if 'ThreadSanitizer: data race' in nr['stderr']:
+                i = nr['stderr'].find('ThreadSanitizer: data race')
+                return True, 'ThreadSanitizer build of harness and library (%s): %s' % (e or 'unperturbed', nr['stderr'][i:i + 700].replace('\n', ' | '))
+            last = 'rc=%s %s' % (nr['rc'], nr['stderr'][-200:].replace('\n', ' | '))
+        # fall through to the AddressSanitizer stress replay: a race may also show as memory corruption
     if task.opts.get('preempt_bound') and kind in ('memory', 'race', 'deadlock', 'hang', 'assert', 'uncaught_exception', 'terminate'):
         # schedule-dependent counterexample, first the schedule itself: pause the preempted thread natively at the
         # synchronisation point where llsym preempted it (the per-thread count may be off by a few mutex operations that
